@@ -1,0 +1,33 @@
+//! Verification-only loop counters (feature `verif_hooks`, off by default).
+//! Every loop of the lexer, parser and builder calls [`tick`] once per iteration; an external
+//! monitor reads the count to decide termination and cost on logical steps instead of wall clock,
+//! and may set a budget after which `tick` panics (caught by the monitor) so a runaway loop stops.
+
+use std::cell::Cell;
+
+thread_local! {
+    static TICKS: Cell<u64> = const { Cell::new(0) };
+    static BUDGET: Cell<u64> = const { Cell::new(u64::MAX) };
+}
+
+pub fn reset(budget: u64) {
+    TICKS.with(|t| t.set(0));
+    BUDGET.with(|b| b.set(budget));
+}
+
+pub fn ticks() -> u64 {
+    TICKS.with(|t| t.get())
+}
+
+#[inline]
+pub fn tick() {
+    let n = TICKS.with(|t| {
+        let n = t.get() + 1;
+        t.set(n);
+        n
+    });
+    if n > BUDGET.with(|b| b.get()) {
+        BUDGET.with(|b| b.set(u64::MAX));
+        panic!("verif tick budget exceeded");
+    }
+}
